@@ -7,6 +7,7 @@ from mirsym.harness import Violation, explore
 from . import scen
 from .flow import Run, Cfg, install_trace_context
 
+CLOSE_KINDS = ["Next", "Skip", "Submit", "Remove"]
 UNIT_MS = {"s": 1000, "m": 60000, "h": 3600000, "d": 86400000}
 
 
@@ -91,7 +92,10 @@ class TRun(Run):
                 if not a1:
                     continue
                 n0 = len(self.readings)
-                W.action(self.pid, a1[0]["tid"], "Next", {})
+                # the client closes the act: by complete, or by one of the other closing actions (the task is finished either way)
+                ckind = CLOSE_KINDS[I.path.choose(len(CLOSE_KINDS), "close-kind")]
+                self.log[-1]["kind"] = ckind
+                W.action(self.pid, a1[0]["tid"], ckind, {})
                 W.drain()
                 answered_at = (n0, len(self.readings))
                 self.ev_reads.append((n0 + 1, len(self.readings)))
@@ -155,7 +159,7 @@ class TRun(Run):
             m = I.model(neg)
             model = {k: str(m.eval(v, model_completion=True)) for k, v in self.sym.items()} if m is not None else {}
             self.res.violations.append(Violation(self.prop, role, desc, self.name, dict(decisions=list(I.path.taken), events=[e["event"] for e in self.log], rules=self.rules,
-                                                                                         on_step=self.on_step, start_var=self.start_var, ev_reads=list(self.ev_reads)), model, None))
+                                                                                         on_step=self.on_step, start_var=self.start_var, ev_reads=list(self.ev_reads), log=list(self.log)), model, None))
 
     def viol(self, role, desc, detail=None):
         I = self.I
@@ -182,12 +186,13 @@ def confirm(v, oracles=()):
         val = int(m.get("clk%d" % hi, start_val)) if hi >= lo else start_val
         offsets.append(max(0, val - start_val))
     offsets = [max(offsets[: i + 1]) for i in range(len(offsets))]
-    for ev, off in zip(events, offsets):
+    kinds = [e.get("kind", "Next") for e in d.get("log", []) if e.get("event") in ("tick", "answer")]
+    for i, (ev, off) in enumerate(zip(events, offsets)):
         if ev == "tick":
             steps.append({"op": "tick", "clock_offset": off})
         else:
             steps.append({"op": "clock", "offset": off})
-            steps.append({"op": "action", "kind": "next", "nid": "a1", "occurrence": 0, "options": {}})
+            steps.append({"op": "action", "kind": replay.snake(kinds[i]) if i < len(kinds) else "next", "nid": "a1", "occurrence": 0, "options": {}})
     for e in extra:
         steps.append({"op": "action", "kind": "next", "nid": e["answer"], "occurrence": e.get("occurrence", 0), "options": {}})
     sc = {"config": {"keep_processes": True, "tick_interval_secs": 100000}, "threads": 2, "models": [model], "steps": steps, "known_nids": sorted(replay.node_ids(model))}
